@@ -15,6 +15,9 @@ const (
 	FaultNoMarker  = "no_marker"  // the body lacks Marker
 	FaultNoHeader  = "no_header"  // the X-Tok response header is missing
 	FaultObjString = "obj_string" // json body: "obj" is a string instead of an object
+	// FaultBodyCut: status line and headers arrive as usual (Content-Length of the whole body), the connection is
+	// dropped before the body is complete - a transport error after the response headers.
+	FaultBodyCut = "body_cut"
 )
 
 // Marker is contained in every unfaulted body.
@@ -26,6 +29,9 @@ type Reply struct {
 	Status int               `json:"status"`
 	Header map[string]string `json:"header,omitempty"` // canonical names
 	Body   string            `json:"body,omitempty"`
+	// Cut: the transfer of Body fails part-way (the peer announces len(Body) bytes and drops the connection before
+	// they are all sent). The exchange is a transport failure whatever the status and the headers say.
+	Cut bool `json:"cut,omitempty"`
 }
 
 // Capture expressions the generated programs may use (they match MakeReply's bodies).
@@ -60,7 +66,7 @@ func MakeReply(def *Request, fresh string, num int, fault string, status int) Re
 	if fault == FaultClose {
 		return Reply{Closed: true}
 	}
-	r := Reply{Status: 200, Header: map[string]string{"X-Mix": "Ab" + fresh + "Cd"}}
+	r := Reply{Status: 200, Header: map[string]string{"X-Mix": "Ab" + fresh + "Cd"}, Cut: fault == FaultBodyCut}
 	if fault == FaultStatus && status != 0 {
 		r.Status = status
 	}
